@@ -1448,6 +1448,20 @@ func planFor(prop, tier string) (*plan, error) {
 			f.Tasks[0].Instrument = true
 			mk(flowProg(f, "INS:"+em))
 		}
+		// emitters on directives that instrument nothing, or only a task: the arguments are evaluated all the same
+		for _, em := range []string{"1", "2", "stack"} {
+			f := exprConc(pg.Shape("chain2"))
+			f.Emitters = em
+			mk(flowProg(f, "EMIT-only:"+em))
+			g := exprConc(pg.Shape("chain2"))
+			g.Emitters = em
+			g.Tasks[1].Instrument = true
+			mk(flowProg(g, "EMIT-task:"+em))
+			q := pg.Pars(1, false)[0].Clone()
+			q.Conc = "expr"
+			q.Emitters = em
+			mk(parProg(q, "PAR-EMIT-only:"+em))
+		}
 		for _, par := range pg.Pars(2, false) {
 			for _, coe := range []string{"", "expr"} {
 				if coe != "" && par.HasEnd() {
